@@ -212,19 +212,25 @@ def judge(rep: Report, traces, owners) -> None:
     random.Random(len(traces)).shuffle(order)
     traces[:] = [traces[i] for i in order]
     owners[:] = [owners[i] for i in order]
-    verdicts, st, tr = tlc.validate_traces("Trace_Tty", "Trace_Tty.cfg", traces, batch=max(40, len(traces) // 8 + 1),
+    verdicts, st, tr = tlc.validate_traces("Trace_Tty", "Trace_Tty.cfg", traces, batch=max(40, min(1200, len(traces) // 8 + 1)),
                                            parallel=8, workers=2, timeout=840, name="c13")
     rep.states += st
     rep.transitions += tr
     rep.traces_validated += len(traces)
     exempt = 0
+    verdict_of = {id(t): v["verdict"] for v, t in zip(verdicts, traces)}
+    probes = probes_ok = 0
     for v, t, o in zip(verdicts, traces, owners):
         exempt += bool(v.get("exempt"))
         if o["kind"] == "probe":
+            rep.traces_validated -= 1
+            if verdict_of.get(o["base"]) != "ok":
+                continue  # the base trace is itself rejected: this probe shows nothing
+            probes += 1
             if v["verdict"] != "c13:attribute-word-not-restored":
                 raise tlc.MachineryError(f"Trace_Tty did not reject a trace with a tampered final word: {v}")
+            probes_ok += 1
             rep.extra["corrupted_trace_verdict"] = v["verdict"]
-            rep.traces_validated -= 1
             continue
         if v["verdict"] == "ok":
             continue
@@ -239,6 +245,8 @@ def judge(rep: Report, traces, owners) -> None:
             f"calls {o.get('calls')}" + (f"; raw before/after {o['raw']}" if "raw" in o else ""),
             {k: o[k] for k in ("kind", "fault_line", "fault_kind", "scn") if k in o})
     rep.extra["exempt_faults_seen"] = exempt
+    if any(o["kind"] == "probe" for o in owners) and not probes_ok and not rep.violations:
+        raise tlc.MachineryError("no tampered trace could be judged (self-test of the alarm did not run)")
 
 
 def main(rep: Report, replay: dict | None) -> None:
@@ -348,13 +356,16 @@ def main(rep: Report, replay: dict | None) -> None:
     finally:
         session.close()
     rep.extra["pty_fault_runs"] = len(picks)
-    # 4. the alarm rings: tamper with the final word of a good real trace
-    probe = next((copy.deepcopy(t) for t in traces if t["mode"] == "real" and t["final"]["attr"] == t["env"]["attr0"]), None)
-    if probe is None:
+    # 4. the alarm rings: tamper with the final word of real traces (several, of different
+    # operations: under a code mutation a base trace may itself be invalid)
+    bases = [i for i, t in enumerate(traces) if t["mode"] == "real" and t["final"]["attr"] == t["env"]["attr0"]]
+    if not bases and not rep.violations:
         raise tlc.MachineryError("no real trace to tamper with")
-    probe["final"]["attr"] = dict(probe["final"]["attr"], echo=not probe["final"]["attr"]["echo"])
-    traces.append(probe)
-    owners.append({"kind": "probe"})
+    for i in bases[:: max(1, len(bases) // 6)][:6]:
+        probe = copy.deepcopy(traces[i])
+        probe["final"]["attr"] = dict(probe["final"]["attr"], echo=not probe["final"]["attr"]["echo"])
+        traces.append(probe)
+        owners.append({"kind": "probe", "base": id(traces[i])})
     judge(rep, traces, owners)
     lap("judge")
     for t in [t for t in traces if t["mode"] == "real"][:2]:
